@@ -66,9 +66,62 @@ def selftests(prop, mod):
     return out
 
 
+REWRITES = ["rename+commute+flipcmp+literals+temp",
+            "ifswap+noteq+kwswap+range0+whiletrue+inlinetemp",
+            "comp2loop+unifexp+chained+elifnest+swapassign+augassign+items"]
+
+
+def metamorphic(prop, mod):
+    """Metamorphic self-test (thorough tier): /repo's CURRENT rig/ is
+    rewritten mechanically by compositions of meaning-preserving
+    transformations (tools/preserve_fuzz.py: local renames, operand and
+    comparison flips, literal spellings, temporaries, if/else forms, loops
+    for comprehensions, ...) into a scratch copy that is removed at once,
+    and the check is run on the copy: its verdict (exit code and the rules
+    reporting) must be the verdict on the tree itself, whatever that is."""
+    import shutil
+    import subprocess
+    import tempfile
+    from .core import REPO, VERIF
+    out = []
+    tool = os.path.join(VERIF, "tools", "preserve_fuzz.py")
+    if not os.path.exists(tool):
+        return out
+
+    def verdict(repo):
+        rep = Report(prop, "thorough", quiet=True)
+        try:
+            rc = mod.check(Program(repo=repo), rep)
+        except AnalysisError:
+            rc = 2
+        return rc, sorted(set(f.rule for f in getattr(rep, "new_findings",
+                                                      [])))
+    base = verdict(REPO)
+    for kinds in REWRITES:
+        tmp = tempfile.mkdtemp(prefix="rv_meta_")
+        try:
+            env = dict(os.environ, RIGVERIF_REPO=REPO)
+            r = subprocess.run([sys.executable, "-W", "ignore", tool, kinds,
+                                tmp], env=env, capture_output=True,
+                               text=True)
+            if r.returncode != 0:
+                out.append(("rewrite %s (tool failed)" % kinds, None,
+                            "metamorphic"))
+                continue
+            got = verdict(tmp)
+            out.append(("rewrite %s -> exit %s %s" % (
+                kinds.split("+")[0] + "+..", got[0], ",".join(got[1])),
+                got == base, "metamorphic"))
+        finally:
+            shutil.rmtree(tmp, ignore_errors=True)
+    return out
+
+
 def run(prop, tier):
     mod = importlib.import_module("rigverif.rules." + prop)
     st = selftests(prop, mod) if tier == "thorough" else []
+    if tier == "thorough":
+        st += metamorphic(prop, mod)
     program = Program()
     report = Report(prop, tier)
     report.selftests = [(n, f, k) for n, f, k in st if f is not None]
